@@ -5,11 +5,17 @@
     scope, failing handlers; for every program with K = 2: HandlersAfterBody,
     MatchingHandler, BodyFailureContained, AllRan, and the liveness Finishes; the
     "early" variant (handlers submitted without waiting for the body) must violate
-    HandlersAfterBody.
+    HandlersAfterBody.  A handler submitted after another handler has failed is refused
+    ("cut") and the refusal is reported on the surrounding scope while its Close waits:
+    NoCrash holds; in the "closedguard" variant (scope closed as soon as Close starts,
+    fixed defect) that report panics and NoCrash is violated.
 (T) EVERY program of the bound (body length 1-2, failing command, nested task none / ok /
     failing, all 8 handler subsets, all failing subsets: 405 programs) is executed by a
     real application through its terminal in strict mode with probe commands; the
-    events and the error state of the surrounding scope are validated by Trace_Try.tla."""
+    events and the error state of the surrounding scope are validated by Trace_Try.tla.
+(R) the cut schedule of the model forced on the real code with the try.handler hook: the
+    finally handler has failed before the fail / success handler is submitted; the run
+    must finish (no panic) and its trace must be accepted."""
 import json
 import vlib
 
@@ -27,6 +33,10 @@ def run(ctx):
     ctx.cov['states'] -= re_['distinct']; ctx.cov['transitions'] -= re_['generated']
     if 'HandlersAfterBody' not in re_['violated']:
         raise vlib.Infra('spec self-test failed: the early variant does not violate HandlersAfterBody')
+    rc = ctx.tlc('pipeline', 'Try', 'MC_Try_closedguard.cfg', workers=2, timeout=300, name='closedguard variant (must violate NoCrash)')
+    ctx.cov['states'] -= rc['distinct']; ctx.cov['transitions'] -= rc['generated']
+    if 'NoCrash' not in rc['violated']:
+        raise vlib.Infra('spec self-test failed: the closedguard variant does not violate NoCrash')
     tf = ctx.tmp('c16.ndjson')
     rounds = 1 if q else 10
     total = 0
@@ -38,6 +48,14 @@ def run(ctx):
         total += v['histories']
         if v['rejected']:
             break
+    # forced schedule (try.handler hook): the finally handler has failed before the next handler is submitted
+    if not v['rejected']:
+        tg = ctx.tmp('c16_gate.ndjson')
+        ctx.vh(['trytrace', '--out', tg, '--gate', '--k', '1' if q else '2'], timeout=3000)
+        vg = vlib.validate_trace(ctx, 'pipeline', 'Trace_Try', 'Trace_Try.cfg', tg, what='pip:try programs whose finally handler fails before the next handler is submitted',
+                                 key_of=lambda e: 'trace-gated:%s:%s' % (e.get('ev'), e.get('id', '')), timeout=3000)
+        ctx.cov['evaluations'] += vg['events']
+        total += vg['histories']
     ctx.cov['distinct_nontrivial'] = total
     ctx.cov['rule'] = 'every program = (body length, failing command, nested task, defined handlers, failing handlers) in the bound; repeated for schedule variety in the thorough tier'
     with open(tf) as f:
